@@ -167,14 +167,24 @@ pub(crate) fn sort_requires(ctx: &Context, input_ast: Ast) -> Ast {
 
     // Reconstruct the AST with sorted require groups
     let mut stmts: Vec<StmtSemicolon> = Vec::new();
+    // `-- stylua: ignore start` / `-- stylua: ignore end` regions span statements, so the context is toggled
+    // statement by statement, in source order (as format_block does)
+    let mut ctx = *ctx;
     for part in parts {
         match part {
             BlockPartition::RequiresGroup(_, mut list) => {
-                // If any of the block is ignored, then ignore the whole thing
-                if list
+                let contexts: Vec<Context> = list
                     .iter()
-                    .any(|(_, stmt)| !matches!(ctx.should_format_node(stmt), FormatNode::Normal))
-                {
+                    .map(|(_, (stmt, _))| {
+                        ctx = ctx.check_toggle_formatting(stmt);
+                        ctx
+                    })
+                    .collect();
+
+                // If any of the block is ignored, then ignore the whole thing
+                if list.iter().zip(contexts.iter()).any(|((_, stmt), ctx)| {
+                    !matches!(ctx.should_format_node(stmt), FormatNode::Normal)
+                }) {
                     stmts.extend(list.iter().map(|x| x.1.clone()));
                     continue;
                 }
@@ -216,7 +226,12 @@ pub(crate) fn sort_requires(ctx: &Context, input_ast: Ast) -> Ast {
                 // Add to the list of stmts
                 stmts.extend(list.iter().map(|x| x.1.clone()))
             }
-            BlockPartition::Other(mut list) => stmts.append(&mut list),
+            BlockPartition::Other(mut list) => {
+                for (stmt, _) in list.iter() {
+                    ctx = ctx.check_toggle_formatting(stmt);
+                }
+                stmts.append(&mut list)
+            }
         };
     }
 
